@@ -113,14 +113,18 @@ type RecSpec struct {
 
 // Case is a handler configuration, a derivation tree and records.
 type Case struct {
-	NilOpts     bool       `json:"nil_opts"`
-	NilLevel    bool       `json:"nil_level"`
-	Level       int        `json:"cfg_level"`
-	ReplaceAttr bool       `json:"replace_attr"`
-	AddSource   bool       `json:"add_source,omitempty"`
-	Nodes       []NodeSpec `json:"nodes"`
-	Records     []RecSpec  `json:"records"`
-	Goroutines  int        `json:"goroutines"` // concurrent variant
+	NilOpts     bool `json:"nil_opts"`
+	NilLevel    bool `json:"nil_level"`
+	Level       int  `json:"cfg_level"`
+	ReplaceAttr bool `json:"replace_attr"`
+	// FailAt > 0: the FailAt-th Write of the shared writer panics (FailKind
+	// 1) or returns an error (FailKind 2); the caller recovers and goes on.
+	FailAt     int        `json:"fail_at,omitempty"`
+	FailKind   int        `json:"fail_kind,omitempty"`
+	AddSource  bool       `json:"add_source,omitempty"`
+	Nodes      []NodeSpec `json:"nodes"`
+	Records    []RecSpec  `json:"records"`
+	Goroutines int        `json:"goroutines"` // concurrent variant
 }
 
 func (c Case) opts() *slog.HandlerOptions {
@@ -247,10 +251,30 @@ func checkEnabled(c Case, root slog.Handler) error {
 	return nil
 }
 
+// faultyWriter fails (panic or error) on its n-th Write and works otherwise.
+type faultyWriter struct {
+	buf    *bytes.Buffer
+	n      int
+	failAt int
+	kind   int
+}
+
+func (w *faultyWriter) Write(p []byte) (int, error) {
+	w.n++
+	if w.failAt > 0 && w.n == w.failAt {
+		if w.kind == 1 {
+			panic("writer panicked")
+		}
+		return 0, errors.New("writer failed")
+	}
+	return w.buf.Write(p)
+}
+
 func checkSequential(c Case) error {
 	buf := &bytes.Buffer{}
 	opts := c.opts()
-	root := slogutil.NewJSONHybridHandler(buf, opts)
+	fw := &faultyWriter{buf: buf, failAt: c.FailAt, kind: c.FailKind}
+	root := slogutil.NewJSONHybridHandler(fw, opts)
 	nodes := c.tree(root)
 	if err := checkEnabled(c, root); err != nil {
 		return err
@@ -271,7 +295,31 @@ func checkSequential(c Case) error {
 				continue
 			}
 			buf.Reset()
-			if err = n.h.Handle(context.Background(), r); err != nil {
+			faulted := false
+			func() {
+				defer func() {
+					if rec := recover(); rec != nil {
+						if fw.failAt > 0 && fw.n == fw.failAt && fw.kind == 1 {
+							faulted = true // the injected writer panic, recovered by the caller
+							return
+						}
+						panic(rec)
+					}
+				}()
+				err = n.h.Handle(context.Background(), r)
+			}()
+			if fw.failAt > 0 && fw.n == fw.failAt && !faulted && fw.kind == 2 && err != nil {
+				faulted = true // the injected write error is passed through
+				fw.n++         // do not take this branch again
+			}
+			if faulted {
+				vp.Class("seq:writer-fault-injected")
+				if fw.kind == 1 {
+					fw.n++ // the panicking write is over
+				}
+				continue
+			}
+			if err != nil {
 				return fmt.Errorf("record %d: Handle returned %v", ri, err)
 			}
 			out := buf.String()
@@ -389,6 +437,13 @@ func genCase(t *rapid.T, concurrent bool) Case {
 		Level:       rapid.SampledFrom([]int{-8, -4, 0, 4, 8, 2, -100}).Draw(t, "cfglevel"),
 		ReplaceAttr: rapid.Bool().Draw(t, "replaceattr"),
 		AddSource:   rapid.IntRange(0, 3).Draw(t, "addsource") == 0,
+	}
+	if !concurrent && rapid.IntRange(0, 5).Draw(t, "fault") == 0 {
+		c.FailAt = rapid.IntRange(1, 4).Draw(t, "failat")
+		// Only panics: after a Write that returned an error, encoding/json's
+		// Encoder keeps returning that error (sticky by design), which is
+		// not the handler's doing.
+		c.FailKind = 1
 	}
 	nn := rapid.IntRange(0, 8).Draw(t, "nodes")
 	for i := 0; i < nn; i++ {
